@@ -1134,7 +1134,148 @@ func c05HeaderSlots(p *Prog, r *Report) {
 		}
 	}
 	r.Check(same, rule, "socks5.LengthOfAddrFromAddrPort~WriteAddrFromAddrPort", p.posStr(ln.Body.Pos()), fmt.Sprintf("%d outcome combinations, same byte count in both", len(wt)), "the length function and the writer disagree about how many bytes an address takes: "+detail+" — every packer that reserves the one and writes the other leaves a hole or overlaps the payload")
-	r.Floor(rule, 3)
+	// the reader's table agrees with the writer's: for every address type byte the writer stores,
+	// the readers consume, on the case of that constant, exactly the number of bytes the writer
+	// reports for it
+	wtab, wok2 := c05WriterAtypTable(p, wr)
+	nReaders := 0
+	for _, rn := range [][2]string{{"", "AddrPortFromSlice"}, {"", "ConnAddrFromSlice"}, {"DomainCache", "ConnAddrFromSlice"}} {
+		rd := p.LookupFunc("socks5", rn[0], rn[1])
+		if rd == nil {
+			continue
+		}
+		nReaders++
+		rtab, rok := c05ReaderAtypTable(p, rd)
+		okT := wok2 && rok && len(wtab) >= 2
+		det := ""
+		for k, n := range wtab {
+			if rn2, has := rtab[k]; !has || rn2 != n {
+				okT = false
+				det = fmt.Sprintf("for address type %d the writer produces %d bytes and %s consumes %d", k, n, rd.Name, rtab[k])
+			}
+		}
+		r.Check(okT, rule, "socks5.WriteAddrFromAddrPort~"+rd.Name, p.posStr(rd.Body.Pos()), fmt.Sprintf("writer %v, reader %v", wtab, rtab), "the SOCKS address reader and writer disagree on the length of an address type: "+det+" — every payload offset computed from the reader's count is off for that family")
+	}
+	r.Check(nReaders >= 2, rule, "socks5:slice-readers", "socks5/addr.go", fmt.Sprintf("%d readers", nReaders), "the SOCKS address slice readers were not found")
+	r.Floor(rule, 5)
+}
+
+// c05WriterAtypTable: along each path of the writer, the constant stored into b[0] and the
+// constant byte count reported.
+func c05WriterAtypTable(p *Prog, fc *FuncCtx) (map[int64]int64, bool) {
+	info := fc.Info()
+	out := map[int64]int64{}
+	ok := true
+	resObj := fc.ResultObj(0)
+	var walk func(v int, atyp, n int64, seen map[int]bool)
+	walk = func(v int, atyp, n int64, seen map[int]bool) {
+		if !ok || seen[v] {
+			if seen[v] {
+				ok = false
+			}
+			return
+		}
+		seen[v] = true
+		defer delete(seen, v)
+		vx := fc.G.V[v]
+		if as, isAs := vx.Node.(*ast.AssignStmt); isAs && vx.Kind == VStmt && len(as.Lhs) == len(as.Rhs) {
+			for i, l := range as.Lhs {
+				if ix, isIx := ast.Unparen(l).(*ast.IndexExpr); isIx && objOf(info, ix.X) == fc.ParamObj(0) {
+					if k, isC := constInt(info, ix.Index); isC && k == 0 {
+						if c, isC2 := constInt(info, as.Rhs[i]); isC2 {
+							atyp = c
+						} else {
+							ok = false
+						}
+					}
+				}
+				if resObj != nil && objOf(info, l) == resObj {
+					if c, isC := constInt(info, as.Rhs[i]); isC {
+						n = c
+					} else {
+						ok = false
+					}
+				}
+			}
+		}
+		if v == fc.G.Exit {
+			return
+		}
+		for _, e := range vx.Succs {
+			if e.To == fc.G.Exit {
+				if rs, isRS := vx.Node.(*ast.ReturnStmt); isRS && len(rs.Results) == 1 {
+					if c, isC := constInt(info, rs.Results[0]); isC {
+						n = c
+					} else {
+						ok = false
+					}
+				}
+				if atyp < 0 || n < 0 {
+					ok = false
+					return
+				}
+				if prev, has := out[atyp]; has && prev != n {
+					ok = false
+				}
+				out[atyp] = n
+				continue
+			}
+			walk(e.To, atyp, n, seen)
+		}
+	}
+	walk(fc.G.Entry, -1, -1, map[int]bool{})
+	return out, ok
+}
+
+// c05ReaderAtypTable: for each constant case of the switch on b[0], the constant count the
+// reader returns together with a nil error.
+func c05ReaderAtypTable(p *Prog, fc *FuncCtx) (map[int64]int64, bool) {
+	info := fc.Info()
+	out := map[int64]int64{}
+	ok := true
+	isTypeByte := func(e ast.Expr) bool {
+		ix, isIx := ast.Unparen(e).(*ast.IndexExpr)
+		if !isIx || objOf(info, ix.X) == nil {
+			return false
+		}
+		k, isC := constInt(info, ix.Index)
+		return isC && k == 0
+	}
+	for _, ret := range fc.Returns() {
+		rs := fc.G.V[ret].Node.(*ast.ReturnStmt)
+		if len(rs.Results) != 3 || fc.ErrAtReturn(ret) == ErrNonNil {
+			continue
+		}
+		n, isC := constInt(info, rs.Results[1])
+		if !isC {
+			continue // the domain form: its length is not a constant
+		}
+		// the case constant whose equal edge dominates this return
+		found := false
+		for _, cv := range fc.G.V {
+			x, y, op, okc := condParts(cv)
+			if !okc || y == nil || op != token.EQL || !isTypeByte(x) {
+				continue
+			}
+			k, isK := constInt(info, y)
+			if !isK {
+				continue
+			}
+			for _, e := range cv.Succs {
+				if e.Label == LTrue && fc.G.EdgeDominates([]Edge{e}, ret) {
+					if prev, has := out[k]; has && prev != n {
+						ok = false
+					}
+					out[k] = n
+					found = true
+				}
+			}
+		}
+		if !found {
+			ok = false
+		}
+	}
+	return out, ok && len(out) > 0
 }
 
 // c05OutcomeTable walks every acyclic path of fc, recording the outcomes of the conditions that
